@@ -42,7 +42,7 @@ from .reporter       import CliReporter
 from .configurator   import Configurator, load_config
 from .configuration_error import ConfigurationError
 from .output import UIError
-from .ui import UI
+from .ui import UI, escape_braces
 
 
 class ReBench(object):
@@ -272,6 +272,15 @@ Argument:
             raise UIError(exc.message + "\n", exc)
         except ValueError as exc:
             raise UIError(exc.args[0] + "\n", exc)
+        except (TypeError, KeyError, IndexError, AttributeError,
+                AssertionError, NotImplementedError) as exc:
+            # the schema cannot express everything the compilation of the
+            # configuration relies on, for instance that an experiment names its
+            # executions and suites, that the suites are defined, or that
+            # invocations are numbers. Report it to the user instead of crashing.
+            raise UIError(
+                "The configuration in %s is not valid. Processing it failed with %s: %s\n"
+                % (args.config[0], type(exc).__name__, escape_braces(str(exc))), exc)
 
         if args.report_completion:
             return self._report_completion()
